@@ -64,8 +64,12 @@ func (r *newRevisionReconciler) Reconcile(ctx context.Context,
 		"collisionRev", conflictingObjectSet.GetRevision(),
 		"latestRev", latestRevisionNumber)
 	controllerRef := metav1.GetControllerOf(conflictingObjectSet.ClientObject())
+	// A conflicting ObjectSet that has not reported a revision yet was only just created
+	// (no new revision is created while an existing one lacks its revision number),
+	// so it can't be an older revision with the same name.
 	if !conflictingObjectSet.IsArchived() &&
-		conflictingObjectSet.GetRevision() >= latestRevisionNumber &&
+		(conflictingObjectSet.GetRevision() == 0 ||
+			conflictingObjectSet.GetRevision() >= latestRevisionNumber) &&
 		controllerRef != nil &&
 		controllerRef.UID == objectDeployment.ClientObject().GetUID() &&
 		equality.Semantic.DeepEqual(newObjectSet.GetTemplateSpec(), conflictingObjectSet.GetTemplateSpec()) {
